@@ -4,6 +4,7 @@ CONSTANTS
   MaxLen = 2
   KeyMode = "pyeq"
   StoreMode = "store"
+  HitMode = "identity"
   Random = FALSE
 INIT Init
 NEXT Next
